@@ -12,7 +12,7 @@ from pyphysim.modulators import fundamental as F
 
 ID = "C16"
 RULE = ("every modulator (BPSK, QPSK, PSK 2..2^12, QAM 4..4^6; PSK also after "
-        "phase-offset changes) x SNR inputs {grid -30..60 dB step 0.25 as "
+        "phase-offset changes or after replacing a differently sized table through setConstellation) x SNR inputs {grid -30..60 dB step 0.25 as "
         "array, random scalars (python float, numpy scalar, 0-d, 2-d arrays), "
         "150 dB} x packet lengths {1,2,10,100,1e4}; d_min and the neighbour "
         "structure are measured on the emitted table and the closed forms are "
@@ -52,6 +52,18 @@ def build(cls, M, variant, rng):
     if variant == 2:
         for _ in range(int(rng.integers(1, 4))):
             m.setPhaseOffset(float(rng.uniform(-4, 4)))
+    return m
+
+
+def build_via_setconstellation(cls, M, rng):
+    """An object that first carried a constellation of ANOTHER size (and was
+    used), then received this one through the public setConstellation."""
+    orders = [o for c, o in specs() if c == cls and o != M]
+    M0 = int(rng.choice(orders))
+    m = F.PSK(M0) if cls == "PSK" else F.QAM(M0)
+    _ = m.K, m.M, m.calcTheoreticalSpectralEfficiency(3.0, 10), m.calcTheoreticalBER(3.0)
+    donor = F.PSK(M) if cls == "PSK" else F.QAM(M)
+    m.setConstellation(donor.symbols.copy())
     return m
 
 
@@ -189,6 +201,8 @@ def check_curves(ctx, m, cls, M, snr_db, form, rng):
                bool(np.all(np.abs(se0 - K * (1 - ber_f)) <= 8 * EPS * K)), n=n,
                cls="se-no-packet", detail=d(se=se0[:3], ber=ber_f[:3]))
     ctx.sig(cls, M, form, "per-se")
+    ctx.ev("K-matches-table", 2 ** m.K == np.asarray(m.symbols).size == m.M,
+           detail=d(K=m.K, size=np.asarray(m.symbols).size))
 
 
 FORMS = ["grid", "pyfloat", "npscalar", "0d", "2d", "highsnr"]
@@ -198,12 +212,15 @@ def case_curves(ctx, rng, idx):
     sp = specs()
     cls, M = sp[idx % len(sp)]
     form = FORMS[(idx // len(sp)) % len(FORMS)]
-    variant = (idx // (len(sp) * len(FORMS))) % 3
-    if cls in ("BPSK", "QAM"):
+    variant = (idx // (len(sp) * len(FORMS))) % 4
+    if cls in ("BPSK", "QAM") and variant != 3:
         variant = 0
     if cls == "QPSK" and variant == 1:
         variant = 2
-    m = build(cls, M, variant, rng)
+    if variant == 3 and cls in ("BPSK", "QPSK"):
+        variant = 0 if cls == "BPSK" else 2
+    m = build_via_setconstellation(cls, M, rng) if variant == 3 \
+        else build(cls, M, variant, rng)
     if form == "grid":
         snr = GRID.copy()
     elif form == "pyfloat":
@@ -254,7 +271,7 @@ def case_random_points(ctx, rng, idx):
 
 NS = len(specs())
 GENS = {
-    "curves": Gen(case_curves, NS * len(FORMS) * 3, NS * len(FORMS) * 3,
+    "curves": Gen(case_curves, NS * len(FORMS) * 4, NS * len(FORMS) * 4,
                   exhaustive=True),
     "random-points": Gen(case_random_points, 150, 30000),
 }
